@@ -172,7 +172,7 @@ ADD_NOTE = {
  'C10': ' Second-tier translation (GenEquiv2): point_on_circle, rotate_pt, sample_ellipse, CircleSegment arcs, Affine::svd, Ellipse::{private_new,center,radii,radii_and_rotation}, RoundedRectRadii::{abs,clamp}.',
  'C11': ' Continuation (Kurbo/EllipsePerimeter.lean, Proofs/C11E.lean): Ellipse::perimeter (Kummer series, remainder bound, AGM loop) is in the model and agrees with the crate bit for bit incl. the AGM pass count; AGM invariants (c\' <= c/2, term\' <= term/2), an explicit pass bound for every accuracy > 0 (bounded work, C14), what the stopping rule guarantees, Kummer value/range scaling and the circle case; the former known high-aspect finding was explained in exact arithmetic (division by the stale a_n instead of the AGM limit) and repaired (93c0fd9); model and theorems re-done for the repaired loop exit. Second-tier translation (GenEquiv2): Triangle::{area,perimeter,bounding_box}, Circle::{area,perimeter,winding}, CircleSegment::{area,perimeter,winding}, Ellipse::{area,winding,bounding_box,radii}, Affine::svd.',
  'C12': ' Second-tier translation (GenEquiv2): Affine::svd, Affine*Ellipse, Affine*Arc. Observation (theorem arc_image_mixed_radii, confirmed on the crate): an Arc whose radii have opposite signs is mapped to an arc traversed the wrong way - radii are magnitudes in the quantifier, documented only.',
- 'C15': ' The hypothesis left in the quartic theorems: depressed_cubic_dominant returns a root of its cubic. Float cbrt of the model is now correctly rounded (as the crate\'s).',
+ 'C15': ' Proofs/C15D.lean discharges the hypothesis the quartic theorems had left (over R depressed_cubic_dominant returns a root - the dominant one - of its cubic in every branch incl. the overflow-guarded ones; an exact root is a fixed point of the Newton refinement): solveQuartic_general_exact_real_unconditional. Float cbrt of the model is now correctly rounded (as the crate\'s).',
  'C17': ' Second-tier translation (GenEquiv2): Line::crossing_point.',
 }
 PENDING = set()
